@@ -35,8 +35,15 @@ pub mod microstack {
 
         #[verifier::external_body]
         pub fn push(&mut self, v: V)
+//#ifnot guard
             requires old(self).view().len() < N,
-            ensures final(self).view() == old(self).view().push(v),
+//#endif
+            ensures
+//#if guard
+                // guard mode (C07): push asserts `next < N` in every build: returned normally => there was room
+                old(self).view().len() < N,
+//#endif
+                final(self).view() == old(self).view().push(v),
         { unimplemented!() }
 
         /// Ok and pushed when there is room, Err and unchanged otherwise (never panics)
